@@ -69,6 +69,18 @@ class Run:
             self.violations.pop()
         self.ev('violations_raw')
 
+    def guard(self, case, fn, *args, seconds=120, **kw):
+        """Run one case under the watchdog.  An exception escaping from the code under test (or the harness) is a violation
+        with its traceback as witness - it must never look like 'held'; a watchdog firing is inconclusive."""
+        try:
+            with timebox(seconds):
+                return fn(self, case, *args, **kw)
+        except CaseTimeout:
+            self.inconc('case watchdog')
+        except Exception as e:
+            tb = traceback.format_exc()
+            self.violation(f'unexpected {type(e).__name__} escaped while running the case: {e!s:.200}', case, observed=tb[-2500:])
+
     # ---- (de)serialisation for shard partials ----
     def to_partial(self):
         return {'evals': self.evals, 'distinct': sorted(self.distinct), 'samples': self.samples,
